@@ -280,6 +280,9 @@ class _Formatter:
         # strings — preserve their whitespace exactly. ``0`` means
         # "not in a macro".
         self._macro_until_depth = 0
+        # Indices of output lines whose end lies inside a multi-line
+        # string literal (exempt from trailing-whitespace stripping).
+        self._protected_lines: set[int] = set()
 
     @property
     def _paren_depth(self) -> int:
@@ -364,7 +367,16 @@ class _Formatter:
             else:
                 self._out.append(self._space_between(prev, tok))
 
-            self._out.append(self._render_token(tok))
+            rendered = self._render_token(tok)
+            if "\n" in rendered and ttype in (STRING, FSTRING_MIDDLE):
+                # Output lines that end inside a multi-line string literal:
+                # their trailing blanks are part of the string's value and
+                # must survive the whole-text strip in ``_finalize``.
+                first = sum(chunk.count("\n") for chunk in self._out)
+                self._protected_lines.update(
+                    range(first, first + rendered.count("\n"))
+                )
+            self._out.append(rendered)
             self._update_state(tok)
             # Subprocess macro (``bash -c ! raw   text``): everything after
             # a free-standing ``!`` is one raw argument — keep it verbatim
@@ -845,13 +857,15 @@ class _Formatter:
     # Final cleanup
     # ---------------------------------------------------------------
     def _finalize(self, text: str) -> str:
-        # Strip trailing whitespace from each line without disturbing
-        # line endings inside string literals (those came through as
-        # part of STRING token text and are emitted unchanged here).
+        # Strip trailing whitespace from each line, except lines that end
+        # inside a multi-line string literal (recorded while emitting).
         lines = text.split("\n")
         # ``split`` keeps a trailing empty element when the text ended
         # with ``\n``; rstrip-ing it is harmless.
-        cleaned = [ln.rstrip(" \t") for ln in lines]
+        cleaned = [
+            ln if i in self._protected_lines else ln.rstrip(" \t")
+            for i, ln in enumerate(lines)
+        ]
         text = "\n".join(cleaned)
         # Collapse any trailing blank lines down to a single newline.
         text = text.rstrip("\n") + "\n"
